@@ -9,8 +9,42 @@ mod comm;
 mod life;
 #[path = "../proto.rs"]
 mod proto;
+#[path = "../spawn.rs"]
+mod spawn;
+#[path = "../trace.rs"]
+mod trace;
+
+/// counts allocations made by the forked child between fork and exec / _exit (C17)
+struct CountingAlloc;
+unsafe impl std::alloc::GlobalAlloc for CountingAlloc {
+    unsafe fn alloc(&self, l: std::alloc::Layout) -> *mut u8 {
+        trace::note_alloc(l.size());
+        std::alloc::System.alloc(l)
+    }
+    unsafe fn dealloc(&self, p: *mut u8, l: std::alloc::Layout) {
+        std::alloc::System.dealloc(p, l)
+    }
+    unsafe fn realloc(&self, p: *mut u8, l: std::alloc::Layout, n: usize) -> *mut u8 {
+        trace::note_alloc(n);
+        std::alloc::System.realloc(p, l, n)
+    }
+    unsafe fn alloc_zeroed(&self, l: std::alloc::Layout) -> *mut u8 {
+        trace::note_alloc(l.size());
+        std::alloc::System.alloc_zeroed(l)
+    }
+}
+#[global_allocator]
+static GLOBAL: CountingAlloc = CountingAlloc;
 
 fn main() {
+    // a panic in a forked child must not unwind into the harness (the child would go on running the remaining cases)
+    let default_hook = std::panic::take_hook();
+    std::panic::set_hook(Box::new(move |info| {
+        if trace::in_child() {
+            unsafe { libc::syscall(libc::SYS_exit_group, 101) };
+        }
+        default_hook(info)
+    }));
     let args: Vec<String> = std::env::args().collect();
     let mode = args.get(1).map(|s| s.as_str()).unwrap_or("");
     let seed: u64 = args.get(2).and_then(|s| s.parse().ok()).unwrap_or(1);
@@ -18,8 +52,9 @@ fn main() {
     match mode {
         "life" => life::run(seed, n, args.get(4).map(|s| s.as_str())),
         "comm" | "commbig" => comm::run(seed, n, args.get(4).and_then(|s| s.parse().ok()), mode == "commbig"),
+        "spawn" => spawn::run(args.get(2).map(|s| s.as_str()).unwrap_or("-")),
         _ => {
-            eprintln!("usage: harness life <seed> <ncases> [replay-spec]");
+            eprintln!("usage: harness life|comm|commbig <seed> <ncases> [index] | spawn <casefile>");
             std::process::exit(2);
         }
     }
